@@ -50,7 +50,7 @@ pub fn main(args: &[String]) -> i32 {
         "gen-corpus-extra" => {
             // adds the hand-scripted legacy directories to an existing corpus
             let out = args.get(1).map(std::path::PathBuf::from).unwrap_or_else(crate::ecorpus::corpus_dir);
-            match crate::ecorpus::generate_legacy_fork(&out) {
+            match crate::ecorpus::generate_legacy_fork(&out).and_then(|_| crate::ecorpus::generate_long_history(&out)) {
                 Ok(()) => 0,
                 Err(e) => {
                     eprintln!("gen-corpus-extra failed: {e}");
@@ -60,7 +60,7 @@ pub fn main(args: &[String]) -> i32 {
         }
         "gen-corpus" => {
             let out = args.get(1).map(std::path::PathBuf::from).unwrap_or_else(crate::ecorpus::corpus_dir);
-            match crate::ecorpus::generate(&out).and_then(|_| crate::ecorpus::generate_legacy_fork(&out)) {
+            match crate::ecorpus::generate(&out).and_then(|_| crate::ecorpus::generate_legacy_fork(&out)).and_then(|_| crate::ecorpus::generate_long_history(&out)) {
                 Ok(()) => 0,
                 Err(e) => {
                     eprintln!("gen-corpus failed: {e}");
@@ -410,6 +410,9 @@ pub fn seq_runs(id: &str, tier: &str) -> Vec<(String, SeqParams)> {
         "C14" => vec![
             base("two clients, HTTP and library twins on both backends, ageing snapshots", alpha(2, 2, true, false, true, &[2, 3]), four.clone(), if quick { D2Q } else { D2T }, if quick { 1 } else { 2 }),
             base("one client, deep chain", alpha(1, 5, false, false, true, &[2, 3]), four.clone(), if quick { D1Q } else { D1T }, 1),
+            // the same bytes uploaded again (accepted once, then as a conflicting request): the
+            // encoding of a conflict does not depend on what the body says
+            base("one client, repeated payloads", alpha(1, 2, false, true, true, &[]), four.clone(), if quick { 5 } else { 7 }, 1),
             // servers with an allow-list naming the clients: the encoding of every outcome is the
             // same (the library twin knows no list)
             base("two clients, allow-listed HTTP servers and library twins", alpha(2, 1, true, false, true, &[]), vec![MEM_LIB, SQL_LIB, crate::sut::MEM_HTTP_ALLOW, crate::sut::SQL_HTTP_ALLOW], if quick { 4 } else { 5 }, 1),
@@ -627,6 +630,19 @@ fn size_replay(id: &str, file: &str, v: &Value) -> i32 {
 /// agree with each other and with what is stored (every single fault plan of the storage-trait
 /// and SQL-statement layers, every request kind, four states, library and HTTP entry).
 fn c08_fault_part(rep: &mut Report, tier: &str) {
+    history_fault_part(rep, "C08", tier)
+}
+
+/// The history properties after (and during) a storage failure. Every single fault plan of the
+/// storage-trait and SQL-statement layers (thorough: VFS too) of every request kind in two
+/// states, library and HTTP entry; afterwards, on the same server object with faults off, the
+/// latest version is read, appended to and read again. What is kept depends on the property:
+/// C08 - the read / append pair disagrees afterwards, or a faulted GetChildVersion answers
+/// something that is neither an error nor the truth; C01 / C07 - a part of a refused upload
+/// stays behind, or the chain no longer reads back as acknowledged; C02 - a faulted AddVersion
+/// answers neither an error nor the truth, leaves a part behind, or the next AddVersion on the
+/// latest version is not accepted.
+fn history_fault_part(rep: &mut Report, id: &str, tier: &str) {
     use crate::efault::FOp;
     let quick = tier != "thorough";
     let states = ["one-version", "chain+snapshot"];
@@ -655,14 +671,23 @@ fn c08_fault_part(rep: &mut Report, tier: &str) {
                     continue;
                 }
                 runs += res["runs"].as_u64().unwrap_or(0);
+                let op = tasks[k]["op"].as_str().unwrap_or("");
                 for f in res["findings"].as_array().cloned().unwrap_or_default() {
                     let msg = f["msg"].as_str().unwrap_or("");
-                    if f["class"] == "later-request-not-served" && (msg.contains("AddVersion(") || msg.contains("GetChild(")) {
+                    let class = f["class"].as_str().unwrap_or("");
+                    let later = class == "later-request-not-served" && (msg.contains("AddVersion(") || msg.contains("GetChild("));
+                    let keep = match id {
+                        "C08" => later || (class == "wrong-answer" && op.starts_with("GetChildVersion")),
+                        "C01" | "C07" => later || class == "partial-effect" || class == "acknowledged-with-partial-state",
+                        "C02" => (class == "later-request-not-served" && msg.contains("AddVersion(")) || (op.starts_with("AddVersion") && matches!(class, "wrong-answer" | "partial-effect" | "acknowledged-with-partial-state" | "acknowledged-but-not-applied")),
+                        _ => false,
+                    };
+                    if keep {
                         kept += 1;
                         rep.violations.push(Violation {
-                            property: "C08".into(),
-                            signature: format!("efault|{}|{}|{}|after-failure", tasks[k]["layer"].as_str().unwrap_or(""), tasks[k]["spec"].as_str().unwrap_or(""), tasks[k]["op"].as_str().unwrap_or("")),
-                            message: format!("[{} layer, {}, state {}, failed request {}] {} — fault {}", tasks[k]["layer"].as_str().unwrap_or(""), tasks[k]["spec"].as_str().unwrap_or(""), tasks[k]["state"].as_str().unwrap_or(""), tasks[k]["op"].as_str().unwrap_or(""), msg, f["fault"]),
+                            property: id.into(),
+                            signature: format!("efault|{}|{}|{}|{}", tasks[k]["layer"].as_str().unwrap_or(""), tasks[k]["spec"].as_str().unwrap_or(""), op, if later { "after-failure" } else { class }),
+                            message: format!("[{} layer, {}, state {}, failed request {}] {} — fault {}", tasks[k]["layer"].as_str().unwrap_or(""), tasks[k]["spec"].as_str().unwrap_or(""), tasks[k]["state"].as_str().unwrap_or(""), op, msg, f["fault"]),
                             replay: json!({"engine": "efault", "task": tasks[k], "fault": f["fault"]}),
                         });
                     }
@@ -672,7 +697,7 @@ fn c08_fault_part(rep: &mut Report, tier: &str) {
         }
     }
     rep.cov("after_storage_failure", json!({
-        "rule": "every single fault plan (k-th storage-trait call fails before/after taking effect; one kind of SQL statement aborted; thorough: k-th VFS call) of every request kind in two states, library and HTTP entry; afterwards, on the same server object with faults off: GetChild(latest) must answer not-found and AddVersion(latest) must be accepted, as the stored state demands",
+        "rule": "every single fault plan (k-th storage-trait call fails before/after taking effect; one kind of SQL statement aborted; thorough: k-th VFS call) of every request kind in two states, library and HTTP entry; the faulted request answers an error or the truth and leaves the state before or the complete state after; afterwards, on the same server object with faults off: GetChild(latest) = not-found, AddVersion(latest) accepted, and it reads back",
         "scenarios": tasks.len(), "fault_runs": runs, "findings_for_this_property": kept,
     }));
 }
@@ -744,6 +769,20 @@ fn c18_fault_part(rep: &mut Report, tier: &str) {
             }
         }
     }
+    // the database busy when the request arrives (another connection holds the write lock for
+    // the first W attempts): nothing fails at or after a commit here, so an error answer must
+    // leave exactly the state before
+    let windows: Vec<usize> = if quick { vec![1, 10, 19, 21, 30, 45, 61, 75, 90, 99, 101, 105, 110, 119, 121, 125, 140, 150, 165, 175, 200, 250] } else { (1..=260).collect() };
+    for spec in ["SqlLib", "SqlHttp"] {
+        for (state, op) in [("one-version", FOp::AvSmall), ("chain+snapshot", FOp::AvSmall), ("chain+snapshot", FOp::AsSmall), ("empty", FOp::AvNewClient)] {
+            if quick && spec == "SqlHttp" && state == "one-version" {
+                continue;
+            }
+            for ch in windows.chunks(8) {
+                tasks.push(json!({"layer": "busy", "spec": spec, "state": state, "op": op.name(), "double": false, "window": 0, "windows": ch, "strict": true}));
+            }
+        }
+    }
     let mut pool = crate::pool::Pool::spawn(threads(), "fault", &json!({"seed": seed()}));
     let results = pool.map(&tasks);
     drop(pool);
@@ -757,7 +796,7 @@ fn c18_fault_part(rep: &mut Report, tier: &str) {
                 }
                 runs += res["runs"].as_u64().unwrap_or(0);
                 for f in res["findings"].as_array().cloned().unwrap_or_default() {
-                    if f["class"] == "partial-effect" {
+                    if f["class"] == "partial-effect" || f["class"] == "error-but-applied" {
                         kept += 1;
                         rep.violations.push(Violation {
                             property: "C18".into(),
@@ -816,6 +855,9 @@ fn seq_check(id: &str, tier: &str, replay: Option<&str>) -> i32 {
     }
     if id == "C08" {
         c08_fault_part(&mut rep, tier);
+    }
+    if matches!(id, "C01" | "C02" | "C07") {
+        history_fault_part(&mut rep, id, tier);
     }
     if id == "C09" {
         c09_overlap_part(&mut rep, tier);
@@ -1280,6 +1322,9 @@ fn c06_check(tier: &str, replay: Option<&str>) -> i32 {
     for t in SPECIAL_TEXTS {
         items.push(json!({"text": t}));
     }
+    for c in CODED {
+        items.push(json!({"coded": c}));
+    }
     for b in 0..256u64 {
         items.push(json!({"byte": b}));
     }
@@ -1366,7 +1411,7 @@ fn c06_check(tier: &str, replay: Option<&str>) -> i32 {
     }
     rep.cov("evaluations", json!(roundtrips));
     rep.cov("distinct_nontrivial", json!(items.len() + chunk_items.len()));
-    rep.cov("rule", json!("one evaluation = one upload through the real code followed by reading it back and comparing bytes and ids; payloads are enumerated from a boundary-structured alphabet (every length 1..300, every length 3800..4200, +-60 around multiples of 4092/4096 up to 5 pages, +-40 around 2^14 and 2^16, 1 MiB +-1; 7 content classes; numeric-looking texts; all 256 one-byte payloads; thorough: all 65536 two-byte payloads, 2 MiB, 16 MiB); distinct = distinct payloads of the alphabet, each non-trivial by construction (non-empty, distinct bytes or length)"));
+    rep.cov("rule", json!("one evaluation = one upload through the real code followed by reading it back and comparing bytes and ids; payloads are enumerated from a boundary-structured alphabet (every length 1..300, every length 3800..4200, +-60 around multiples of 4092/4096 up to 5 pages, +-40 around 2^14 and 2^16, 1 MiB +-1; 7 content classes; numeric-looking texts; payloads that are themselves complete / truncated / trailed zlib, gzip and raw-deflate streams, other compressors' magic numbers, a SQLite file header, base64 / hex / JSON / PEM text; all 256 one-byte payloads; thorough: all 65536 two-byte payloads, 2 MiB, 16 MiB); distinct = distinct payloads of the alphabet, each non-trivial by construction (non-empty, distinct bytes or length)"));
     rep.cov("lengths", json!(lens.len()));
     rep.cov("classes", json!(CLASSES));
     rep.cov("explicit_chunkings", json!(chunkings));
@@ -1390,6 +1435,19 @@ fn c04_check(tier: &str, replay: Option<&str>) -> i32 {
     if let Some(file) = replay {
         let s = std::fs::read_to_string(file).unwrap_or_default();
         let v: Value = serde_json::from_str(&s).unwrap_or(Value::Null);
+        if v["replay"]["engine"] == "ebin-ack-kill" {
+            let route = v["replay"]["task"]["ack_kill"].as_str().unwrap_or("add-snapshot").to_string();
+            let (f, _) = crate::ebin::ack_kill_session(seed(), &route);
+            for (class, msg) in f {
+                if format!("ebin-ack-kill|{class}") == v["signature"].as_str().unwrap_or("") {
+                    println!("VIOLATION property=C04 replay={file}");
+                    println!("  {msg}");
+                    return 1;
+                }
+            }
+            println!("replay of {file}: no violation of C04");
+            return 0;
+        }
         let mut t = v["replay"]["task"].clone();
         t["part"] = json!(0);
         t["parts"] = json!(1);
@@ -1467,6 +1525,43 @@ fn c04_check(tier: &str, replay: Option<&str>) -> i32 {
             }
             Err(e) => rep.machinery_errors.push(format!("crash worker: {e}")),
         }
+    }
+    // acknowledged means committed, in real time: the executable, an upload that has to wait for
+    // the database (the write lock held from outside for 3 s), a kill the moment it is answered
+    if crate::ebin::server_binary().exists() {
+        let tasks2 = vec![json!({"ack_kill": "add-snapshot"}), json!({"ack_kill": "add-version"})];
+        let mut pool = crate::pool::Pool::spawn(2, "bin", &json!({"seed": seed()}));
+        let r2 = pool.map(&tasks2);
+        drop(pool);
+        let mut n2 = 0u64;
+        for (k, r) in r2.iter().enumerate() {
+            match r {
+                Ok(res) => {
+                    if let Some(e) = res["error"].as_str() {
+                        rep.machinery_errors.push(e.to_string());
+                        continue;
+                    }
+                    n2 += res["requests"].as_u64().unwrap_or(0);
+                    for f in res["findings"].as_array().cloned().unwrap_or_default() {
+                        let class = f["class"].as_str().unwrap_or("");
+                        if class == "machinery" {
+                            rep.machinery_errors.push(f["msg"].as_str().unwrap_or("").to_string());
+                            continue;
+                        }
+                        rep.violations.push(Violation {
+                            property: "C04".into(),
+                            signature: format!("ebin-ack-kill|{class}"),
+                            message: format!("real executable: {}", f["msg"].as_str().unwrap_or("")),
+                            replay: json!({"engine": "ebin-ack-kill", "task": tasks2[k]}),
+                        });
+                    }
+                }
+                Err(e) => rep.machinery_errors.push(format!("bin worker: {e}")),
+            }
+        }
+        rep.cov("acknowledged_then_killed", json!({"sessions": 2, "requests_over_tcp": n2, "rule": "the executable built from /repo; another connection holds the database's write lock for three real seconds while an AddSnapshot / AddVersion arrives; the server is killed the moment the upload is answered; after the restart an acknowledged upload must be there, and no upload may be acknowledged while the lock is still held"}));
+    } else {
+        rep.machinery_errors.push(format!("server binary {} not built (the ./check driver builds it)", crate::ebin::server_binary().display()));
     }
     let images = rep.coverage.get("images").and_then(|v| v.as_u64()).unwrap_or(0);
     let distinct = rep.coverage.get("distinct_images").and_then(|v| v.as_u64()).unwrap_or(0);
@@ -1974,7 +2069,15 @@ fn c17_check(tier: &str, replay: Option<&str>) -> i32 {
     } else {
         crate::ebin::launches(quick)
     };
-    let tasks: Vec<Value> = ls.iter().map(|l| l.to_json()).collect();
+    let mut tasks: Vec<Value> = ls.iter().map(|l| l.to_json()).collect();
+    if replay.is_none() {
+        // three addresses of which the k-th is taken by another program at start-up
+        for k in 0..3 {
+            for via in if quick { vec!["flag"] } else { vec!["flag", "flag-comma-list", "env"] } {
+                tasks.push(json!({"occupied": k, "via": via}));
+            }
+        }
+    }
     let mut pool = crate::pool::Pool::spawn(threads().min(12), "bin", &json!({"seed": seed()}));
     let results = pool.map(&tasks);
     drop(pool);
@@ -2020,7 +2123,7 @@ fn c17_check(tier: &str, replay: Option<&str>) -> i32 {
     }
     rep.cov("evaluations", json!(served));
     rep.cov("distinct_nontrivial", json!(tasks.len()));
-    rep.cov("rule", json!("one evaluation = one launch of the real executable built from /repo with one configuration (listen addresses x how they are given x data dir by flag/env x allow-list size and how it is given x snapshot-versions and snapshot-days values by flag/env), followed by a scripted protocol session over real TCP spread over all listen addresses (urgency compared with the model for the configured targets, snapshot aged from outside), an allow-list probe on all four endpoints for listed and unlisted ids, SIGKILL, restart on the same directory and a full re-read; quick: one dimension varied at a time plus all-env / all-flag; thorough: full product. Every configuration is distinct and non-default in at least one dimension except the base one"));
+    rep.cov("rule", json!("one evaluation = one launch of the real executable built from /repo with one configuration (listen addresses x how they are given x data dir by flag/env x allow-list size and how it is given x snapshot-versions and snapshot-days values by flag/env), followed by a scripted protocol session over real TCP spread over all listen addresses (urgency compared with the model for the configured targets, snapshot aged from outside), an allow-list probe on all four endpoints for listed and unlisted ids, SIGKILL, restart on the same directory and a full re-read; plus launches with three addresses of which one is taken by another program (the server may refuse to start, it must not start on the others only); quick: one dimension varied at a time plus all-env / all-flag; thorough: full product. Every configuration is distinct and non-default in at least one dimension except the base one"));
     rep.cov("http_requests_over_tcp", json!(requests));
     rep.cov("samples", json!([tasks[0], tasks[tasks.len() / 2], tasks[tasks.len() - 1]]));
     rep.cov("exhaustive", json!(true));
